@@ -23,8 +23,8 @@ CHECKS = {
    text="Every interleaving of 2 workers with <=2 preemptions and 3 workers with <=1 (thorough: <=3 / <=2) doing their first write through the real DelayedS3Writer is executed under a controlled scheduler whose scheduling points are every source line of cog/_s3.py and every operation of the fake process lock, distributed lock, shared variable and storage client, in three set-ups (no client + shared object; client + shared object; client + per-worker copies). Each schedule is judged: exactly one initiation, every part/complete under that id, no exception, no deadlock. Failing schedules are replayed twice for determinism. MPUFileSink finalisation is enumerated over part counts 1..4 x sizes {0,1,5,4096} x parts-directory placement (incl. another filesystem) x keep_parts; limit accessors over every subset of limit kwargs.",
    note="distributed.Lock/Variable replaced by sequentially consistent fakes; Variable.get on an unset variable = immediate timeout; finalise runs after all writes (task dependency). Interleavings inside one source line or inside botocore are not explored.",
    design="4/C18", thorough=True),
- "C19": dict(level="model_checking", engine="E1+E2",
-   technique="explicit-state BFS over CRS-cache histories on the real module-level caches (differential + weak-reference liveness invariants) + exhaustive pair/triple enumeration of value families",
+ "C19": dict(level="model_checking", engine="E1+E2+E3a",
+   technique="explicit-state BFS over CRS-cache histories on the real module-level caches (differential + weak-reference liveness invariants) + stateless thread-schedule exploration (preemption-bounded) of concurrent transformer requests + exhaustive pair/triple enumeration of value families",
    text="(a) For each value type a family of near-identical values (one field changed; several construction routes per value) is enumerated over ALL ordered pairs and ALL ordered triples: equality must match the construction (same value <=> equal), be reflexive/symmetric/transitive, agree with !=, equal hashable objects must hash equally, unequal objects must not share a dask token, pickle/copy/deepcopy clones must be equal with equal token and hash. (b) Breadth-first search over histories of {construct CRS by spec, drop handle, gc.collect, transformer request} replayed from cleared real caches, from initial and non-initial start states, deduplicated on a canonical cache state; in every state: str/hash/token/epsg of each new CRS equal those observed with empty caches, each transformer maps a probe exactly like a fresh pyproj transformer, and every identity-keyed transformer entry refers to objects that are still alive.",
    note="Bounds: families of 5-40 members per type; histories: init + 3 (quick) / 4 (thorough) events, <=3 live handles, 11 specs over 3 EPSG codes. Two genuine defects are recorded as known findings (F19-1 history-dependent CRS string, F19-2 hash of equal CRSs with different spelling).",
    design="4/C19", thorough=True),
@@ -136,6 +136,25 @@ ADDED = {
  "C20": "tol = 0 and falsy offsets (found F20-2), every helper at both window edges in additive / multiplicative / reciprocal readings, values up to 1e15 and down to 5e-324, other number encodings, call histories, inputs unchanged, own tolerances in ulps.",
 }
 
+# Rounds five and six (e- and f-series) and the neutral (false-alarm) round.
+ADDED2 = {
+ "C01": "streams of up to 258 (thorough 1026) operands with the odd one at every position class, lists and one-shot iterators; every binary GeoBox operation over 9 x 6 relative orientations of the two grids; operands of another CRS-tagged class than the signature names; URN / URL / compound CRS spellings; an exception that is a subclass of the reference's exception is the same failure (neutral c16-N3); CRS caches reset through an import-time snapshot found by introspection.",
+ "C02": "aspect ratio of the raster / control-point cloud (1:1 .. 500:1, pixel and world side independently) x control-point counts x orientations incl. 45 degrees (found F02-10).",
+ "C03": "thin slivers of overlap along a curved edge between the coarse boundary samples, destination/source resolution ratios down to 1/17 in the cross-CRS slices.",
+ "C04": "every composition of N <= 9 (10) on one axis, products over three size letters, prefix sums on the even grid at every subset of positions, typed (Index2d / XY) tile indexes, windows congruent to a tile but shifted.",
+ "C05": "every lossless codec GDAL and tifffile share (10) x predictor, type-limit / huge / tiny pixel values x statistics, image sizes of tile x 2^n pixels and every shape uncompressed (found F05-6: non-termination), memory layout of the source blocks (Fortran source, Fortran-contiguous blocks, copies, lazy transpose, reversed view); a file the readers refuse is a violation, not a harness error.",
+ "C06": "one bag of bytes / bytearray chunks feeding 2-3 sub-streams (same chunk objects), every task order within 1 deviation.",
+ "C09": "wrap inputs: time axis as str / list / array / DataArray / a coordinate borrowed from another registered raster (other CRS, GCP, other grid, custom CRS coordinate name, sliced donor), CRSs without an EPSG code, no CRS coordinate at all; destinations in the source's own CRS related to the source grid (mirrored, shifted, zoomed, padded, cropped, transposed footprint) with and without dst_nodata.",
+ "C10": "CRS pairs incl. CRSs lacking an EPSG code on both sides x .epsg read beforehand; call histories of 0-2 prior public calls with unusual options; E3a: two concurrent warps, every line of warp.py a scheduling point.",
+ "C11": "explicit resolutions far from the CRS origin (pixel index 2e4..1.5e8) x 16 (48) edge phases; shape x resolution x tight x anchor given together on every entry point.",
+ "C12": "strip-shaped tiles (1, 2, 4 rows or columns at full width, variable strips) in cross-CRS pairs; concave / holed / multi-part queries with tile-wide gaps.",
+ "C13": "every composition of 8 rows / 8 columns as the source chunking; Datasets of three bands with every ordered pair of chunkings; lon/lat sources from regional to the whole globe onto regional and world-scale destinations (found F13-2).",
+ "C18": "environment deviation: the k-th upload_part call fails once and the write is retried; two different objects in one session incl. (bucket, key) pairs whose joined text coincides; part numbers around every digit-count change, sparse, zero-based, beyond the default maximum x list order.",
+ "C19": "coordinate-pair values of different classes (coherence only); every family member pickled by an interpreter with another hash seed; E3a: two threads requesting transformers, every line of crs.py a scheduling point, all schedules within 2 (3) preemptions; module state of crs.py found by introspection and restored from an import-time snapshot.",
+ "C20": "integer bin sizes 1..128 and large ones with bins to +-1001: bins are half-open, the left edge of bin i belongs to bin i wherever every intermediate is exact; integer-dtype matrices for decompose_rws; chained input transforms.",
+}
+
+
 def main():
     checks = []
     for pid in ALL:
@@ -149,7 +168,8 @@ def main():
                  replay_cmd_template=f"./check {pid} --replay {{path}}",
                  engine=c["engine"],
                  level_claimed=dict(category=c["level"],
-                                    text=c["text"] + (" Added after the seeded-change rounds: " + ADDED[pid] if pid in ADDED else ""),
+                                    text=c["text"] + (" Added after the seeded-change rounds: " + ADDED[pid] if pid in ADDED else "")
+                                    + (" Added after rounds five and six and the neutral round: " + ADDED2[pid] if pid in ADDED2 else ""),
                                     design_ref=c["design"]),
                  level_note=c["note"], technique=c["technique"])
         checks.append(d)
@@ -170,7 +190,7 @@ def main():
                  kind_free_text="harness-driven execution of dask task graphs in every topological order within a deviation bound"),
         ],
         checks=checks,
-        notes="All exploration runs directly on the implementation; see DESIGN.md. Known findings: known_findings.json.",
+        notes="All exploration runs directly on the implementation; see DESIGN.md. Known findings: known_findings.json. Every case runs under a CPU-time limit (VERIF_CASE_CPU_LIMIT, default 900 s of process CPU time, never wall time): a case interrupted inside the tree under verification is reported as a non-termination violation.",
         not_applicable=[dict(property_id=p, reason=NOT_YET) for p in ALL if p not in CHECKS],
     )
     (V / "MANIFEST.json").write_text(json.dumps(m, indent=1) + "\n")
